@@ -293,6 +293,37 @@ def rand_cfg(rng, **over):
     return pktgen.Cfg(**kw)
 
 
+def sparse_scenario(rng, L, tname, sname, dense=1, angle=0, budgets=None, answers=None, pktcb=0):
+    """revolutions of a mechanical lidar that hold very few valid points - none, one, one less than the laser count, exactly the
+    laser count, ... - between full ones: in dense mode a frame is delivered iff it holds at least one point, with exactly its points;
+    every crossing of the split angle still begins a new cloud"""
+    l = L[tname]
+    s = Scn(sname)
+    s.drv(0, l, pktgen.Cfg(wait=0, dense=dense, pktcb=pktcb, angle=angle, mode=1, lclock=1), answers=answers)
+    ppr = 3
+    step = 36000 // (l.nblk * ppr)
+    ms = MechStream(rng, l, start_az=(angle + 300) % 36000, step=step, dual=False)
+    if budgets is None:
+        budgets = [None, 1, l.laser - 1, 0, l.laser, 2, None, l.laser + 1, 0, 0, 3, None]
+    for bud in budgets:
+        left = [bud]
+        skip = [rng.randrange(0, l.nchan * l.nblk)]          # where in the revolution the valid points sit
+
+        def dist(r):
+            if left[0] is None:
+                return 2000
+            if skip[0] > 0:
+                skip[0] -= 1
+                return 0
+            if left[0] > 0:
+                left[0] -= 1
+                return 2000
+            return 0
+        for k in range(ppr):
+            s.pkt(0, ms.msop(ts=None, dist=dist, jitter=False, gap_prob=0.0, tail_invalid_p=0.0))
+    return s.text()
+
+
 def tf_pair_scenario(rng, L, name, t0='RS16', t1='RSHELIOS'):
     """two instances in one process on an ENABLE_TRANSFORM build: instance 0 keeps the identity transform, instance 1 is created
     later with a non-identity pose; both are fed alternately. The transform belongs to the instance."""
